@@ -39,6 +39,9 @@ namespace CDNS {
      * @brief Decodes input stream of CBOR data.
      */
     class CdnsDecoder {
+#ifdef CDNS_VERIF
+        friend struct ::cdns_verif::Access;
+#endif
         public:
 
         static constexpr std::size_t BUFFER_SIZE = 65535;
